@@ -149,67 +149,7 @@ func RunC14(c *Ctx, r *Report) {
 	// AKA'
 	c.akaRules(r, prefix, "full")
 	c.akaOrderRule(r, prefix+"aka.order")
-	// setter copies and getter returns the stored value
-	ruleV := prefix + "aka.value-identity"
-	r.Rule(ruleV, "setAttr stores a fresh copy of exactly the given octets (no padding) and GetValue returns that field", 2)
-	if sa := c.Method("eap", "EapAkaPrimeAttr", "setAttr"); sa != nil {
-		f := c.NewFA(sa)
-		var valParam *ssa.Parameter
-		for _, p := range sa.Params {
-			if isByteSlice(p.Type()) {
-				valParam = p
-			}
-		}
-		n, okAll := 0, true
-		for _, b := range sa.Blocks {
-			for _, ins := range b.Instrs {
-				st, ok := ins.(*ssa.Store)
-				if !ok {
-					continue
-				}
-				fa, ok := st.Addr.(*ssa.FieldAddr)
-				if !ok || !strings.HasSuffix(FieldKey(fa.X.Type(), fa.Field), ".value") {
-					continue
-				}
-				n++
-				mk, isMk := st.Val.(*ssa.MakeSlice)
-				if !isMk || valParam == nil || f.pin(f.LFOf(mk.Len), f.FactsAt(b)).key() != f.pin(f.SliceLen(valParam), f.FactsAt(b)).key() {
-					okAll = false
-					continue
-				}
-				cp := false
-				for _, cc := range copiesInto(mk) {
-					if cc.Call.Args[1] == ssa.Value(valParam) {
-						cp = true
-					}
-				}
-				// copy(attr.value, value) through a reload of the field just stored
-				for _, i2 := range b.Instrs[instrIndex(st)+1:] {
-					if cc, ok := i2.(*ssa.Call); ok {
-						if bi, ok := cc.Call.Value.(*ssa.Builtin); ok && bi.Name() == "copy" && cc.Call.Args[1] == ssa.Value(valParam) {
-							if base, fld, ok := fieldLoad(cc.Call.Args[0]); ok && fld == "value" && base == fa.X {
-								cp = true
-							}
-						}
-					}
-				}
-				if !cp {
-					okAll = false
-				}
-			}
-		}
-		r.Check(okAll && n > 0, ruleV, "(*eap.EapAkaPrimeAttr).setAttr", c.Pos(sa.Pos()), fmt.Sprintf("%d store(s) of make(len(value)) + copy(value)", n), "some case stores a value that is not an exact copy of the argument (e.g. padded)")
-	}
-	if gv := c.Method("eap", "EapAkaPrimeAttr", "GetValue"); gv != nil {
-		ok := false
-		for _, b := range gv.Blocks {
-			if ret, isR := b.Instrs[len(b.Instrs)-1].(*ssa.Return); isR {
-				_, fld, isF := fieldLoad(ret.Results[0])
-				ok = isF && fld == "value"
-			}
-		}
-		r.Check(ok, ruleV, "(*eap.EapAkaPrimeAttr).GetValue", c.Pos(gv.Pos()), "returns the value field", "GetValue does not return the stored value")
-	}
+	c.akaValueIdentityRule(r, prefix)
 	c.akaPaddingRule(r, prefix)
 }
 
@@ -508,4 +448,68 @@ func (c *Ctx) akaEmitsAllRule(r *Report, rule string) {
 		}
 	}
 	r.Check(okL, rule, "(*eap.EapAkaPrime).Marshal looks the keys up in the attribute map", c.Pos(ma.Pos()), "attributes[key]", "Marshal does not read the attributes of the collected keys from the map")
+}
+
+// akaValueIdentityRule: the setter owns a copy of exactly the given octets and the getter returns that field.
+func (c *Ctx) akaValueIdentityRule(r *Report, prefix string) {
+	ruleV := prefix + "aka.value-identity"
+	r.Rule(ruleV, "setAttr stores a fresh copy of exactly the given octets (no padding) and GetValue returns that field", 2)
+	if sa := c.Method("eap", "EapAkaPrimeAttr", "setAttr"); sa != nil {
+		f := c.NewFA(sa)
+		var valParam *ssa.Parameter
+		for _, p := range sa.Params {
+			if isByteSlice(p.Type()) {
+				valParam = p
+			}
+		}
+		n, okAll := 0, true
+		for _, b := range sa.Blocks {
+			for _, ins := range b.Instrs {
+				st, ok := ins.(*ssa.Store)
+				if !ok {
+					continue
+				}
+				fa, ok := st.Addr.(*ssa.FieldAddr)
+				if !ok || !strings.HasSuffix(FieldKey(fa.X.Type(), fa.Field), ".value") {
+					continue
+				}
+				n++
+				mk, isMk := st.Val.(*ssa.MakeSlice)
+				if !isMk || valParam == nil || f.pin(f.LFOf(mk.Len), f.FactsAt(b)).key() != f.pin(f.SliceLen(valParam), f.FactsAt(b)).key() {
+					okAll = false
+					continue
+				}
+				cp := false
+				for _, cc := range copiesInto(mk) {
+					if cc.Call.Args[1] == ssa.Value(valParam) {
+						cp = true
+					}
+				}
+				// copy(attr.value, value) through a reload of the field just stored
+				for _, i2 := range b.Instrs[instrIndex(st)+1:] {
+					if cc, ok := i2.(*ssa.Call); ok {
+						if bi, ok := cc.Call.Value.(*ssa.Builtin); ok && bi.Name() == "copy" && cc.Call.Args[1] == ssa.Value(valParam) {
+							if base, fld, ok := fieldLoad(cc.Call.Args[0]); ok && fld == "value" && base == fa.X {
+								cp = true
+							}
+						}
+					}
+				}
+				if !cp {
+					okAll = false
+				}
+			}
+		}
+		r.Check(okAll && n > 0, ruleV, "(*eap.EapAkaPrimeAttr).setAttr", c.Pos(sa.Pos()), fmt.Sprintf("%d store(s) of make(len(value)) + copy(value)", n), "some case stores a value that is not an exact copy of the argument (e.g. padded)")
+	}
+	if gv := c.Method("eap", "EapAkaPrimeAttr", "GetValue"); gv != nil {
+		ok := false
+		for _, b := range gv.Blocks {
+			if ret, isR := b.Instrs[len(b.Instrs)-1].(*ssa.Return); isR {
+				_, fld, isF := fieldLoad(ret.Results[0])
+				ok = isF && fld == "value"
+			}
+		}
+		r.Check(ok, ruleV, "(*eap.EapAkaPrimeAttr).GetValue", c.Pos(gv.Pos()), "returns the value field", "GetValue does not return the stored value")
+	}
 }
